@@ -14,10 +14,12 @@ import (
 	"github.com/dolthub/dolt/go/zzverif/vsql"
 )
 
-const c43Rule = "1-3 keyed tables (C29's table generator, small key ranges) with two branch histories biased to touch the same keys (modify/modify, delete/modify, add/add), optionally one ADD COLUMN on one side of one table; CALL dolt_merge with conflicts kept (autocommit=0 or @@dolt_allow_commit_conflicts). Checked against the reference merge: dolt_conflicts counts and every dolt_conflicts_<t> row (base/our/their values, NULL-filled absent versions, diff types). Then the conflicted tables are resolved in a drawn order, each by a drawn strategy: dolt_conflicts_resolve --ours / --theirs (per table, or one call for all), manual resolution (per conflict: keep ours, take theirs, take base or a drawn row written with REPLACE/DELETE on the table or UPDATE on the conflict table, then DELETE FROM dolt_conflicts_<t> by dolt_conflict_id or by key, possibly leaving some conflicts in place), or left unresolved; after every step all tables, conflict tables (our_* follows the current row), dolt_conflicts and index lookups are compared with the model; a fully resolved merge must commit. Optionally the same merge is repeated and resolved in the reverse table order (same result required). Non-trivial: >=1 delete/modify conflict and >=1 conflicted key resolved to a side on which the row is absent; distinct by (schemas, base rows, histories, resolution plan)."
+const c43Rule = "two flavours, half of the cases each. (a) single merge: 1-3 keyed tables (C29's table generator, small key ranges) with two branch histories biased to touch the same keys (modify/modify, delete/modify, add/add), optionally one ADD COLUMN on one side of one table; CALL dolt_merge with conflicts kept (autocommit=0 or @@dolt_allow_commit_conflicts). (b) accumulating merges: one line of history plus 2-3 feature branches, each cut from the common base (sibling branches: same merge base, different right-hand commits) or from the previous feature's head (different merge bases), merged one after the other into a work branch; conflicted merges are committed with their conflicts (--force), so the conflict tables hold rows of several merges at once, possibly several rows for one key; the model keeps, per conflict row, the base and their version of the merge that produced it and its from_root_ish. In both flavours dolt_conflicts counts and every dolt_conflicts_<t> row (base/our/their values, NULL-filled absent versions, diff types) are compared with the reference merge after every merge and after every later step. Then the conflicted tables are resolved in a drawn order, each by a drawn strategy: dolt_conflicts_resolve --ours / --theirs (per table, or one call for all), manual resolution (per conflict row: keep ours, take theirs, take base or a drawn row written with REPLACE/DELETE on the table or UPDATE dolt_conflicts_<t> SET our_c = their_c, then DELETE FROM dolt_conflicts_<t> by dolt_conflict_id or by key and from_root_ish, possibly leaving some conflicts in place), or left unresolved; after every step all tables, conflict tables (our_* follows the current row), dolt_conflicts and index lookups are compared with the model; a fully resolved state must commit. In flavour (a) the same merge is optionally repeated and resolved in the reverse table order (same result required). Non-trivial: >=1 delete/modify conflict and >=1 conflicted key resolved to a side on which the row is absent, or conflicts of >=2 merges were present at once and went through a resolution step; distinct by (schemas, base rows, histories, resolution plan)."
 
 var c43Assumptions = []string{
 	"keyed tables only (keyless conflict tables are cardinality based and are not modelled by vsql.Merge3)",
+	"--theirs for a key that is in conflict with several merged branches must leave exactly one of their versions (which one is not specified)",
+	"accumulating flavour: merges after the first use dolt_merge('--no-commit') when the table already carries conflicts, because a clean merge commits itself and a commit without --force is refused while conflicts exist (documented)",
 	"dolt_conflicts_resolve --theirs on a table whose merged schema differs from their schema may be refused with the documented 'conflict schema's columns are not equal' error (state unchanged) or succeed with their rows mapped by name; both are accepted",
 	"cells are compared as wire-protocol strings over canonical value domains",
 }
